@@ -250,14 +250,19 @@ def lf3(F, R):
     # leaves the overflow assertions of push to this rule, and `self.free - encoded.len()` computed *before* the test - for a
     # log line, say - panics with overflow checks exactly when the name does not fit, the case push has to survive
     if win is None:
+        n_sub = 0
         for ab in sorted(p.live_blocks()):
             t_ = p.term(ab)
             if t_["k"] == "Assert" and str(t_.get("kind", "")).startswith("Overflow:Sub"):
                 ops_ = [strip_refs(p.term_of_operand(o, ab)) for o in t_["ops"]]
                 if ops_ and tstr(ops_[0]) == "(*self).free":
+                    n_sub += 1
                     okg, _ = guarded(p, ab, g_cmp("Lt", False, lambda x: tstr(x) == "(*self).free",
                                                   lambda y: has_sub(y, lambda q: q[0] == "call" and q[1] and q[1].endswith("::len") and has_sub(q, lambda z: z[0] == "call" and z[1] and z[1].endswith("encode_utf8")))))
                     R.require(okg, p, "sub-behind-guard", "`self.free - %s` is computed where `self.free < encoded_ch.len()` has not been ruled out: it underflows (a panic with overflow checks) when the character does not fit" % tstr(ops_[1])[:60], p.loc(ab))
+        if stores and not n_sub:
+            # fail closed: the byte form moves `free` down by subtraction, so its overflow assertion has to be there to be placed
+            R.bad(p, "sub-behind-guard", "no overflow assertion of a subtraction from `free` found in push (facts without overflow checks, or an unknown way of moving `free`)", kind="anchor-missing")
     # free -= 1 exactly once per stored byte: in the innermost loop containing the store
     decs = [(b, i) for b, i, s in p.stmts() if s["k"] == "Assign" and s["p"]["proj"] and p.place_str(s["p"]) == "(*self).free" and tmatch(p.term_of_rvalue(s["rv"], b), ("bin", "Sub", "_", ("c", 1))) is not None]
     other_free = [(b, i) for b, i, s in p.stmts() if s["k"] == "Assign" and s["p"]["proj"] and p.place_str(s["p"]) == "(*self).free" and (b, i) not in decs]
